@@ -1,9 +1,10 @@
 -------------------------------- MODULE Worker --------------------------------
 (***************************************************************************)
 (* worker.Run (query/worker.go :86) as a state machine.  pc: "idle" (first *)
-(* select :97), "work" (inner loop :158), "exit".  The results channel the *)
-(* driver passes is buffered, so a result is handed back in the step that  *)
-(* produces it.  Actions <-> code: Job = TakeJob :99 + the cancel pre-check*)
+(* select :97), "work" (inner loop :158), "exit".  The driver receives the *)
+(* result in the step that produces it (the channel is unbuffered, as the  *)
+(* dispatcher's), except in QuitDuring = the hand-off select :245 with     *)
+(* quit closed and no receiver left.  Actions <-> code: Job = TakeJob :99 + the cancel pre-check*)
 (* :120 + Queue :147; Msg while idle = IgnoreMsg :104; Msg while working = *)
 (* Resp :163 (handler, timer restart :185); Timeout :199; Disconnect :111 /*)
 (* :211 (+ exit :256); Cancel :221 / :228; Quit :116 / :235.               *)
@@ -70,6 +71,21 @@ Quit ==
   /\ UNCHANGED <<short, res, queued, handled, fin, njobs, nmsgs, canc>>
   /\ Finish(A("Quit", "exit", 0, 0))
 
+\* :245-253  quit is closed while the worker has a result that nobody takes
+\* (the dispatcher returned first): Run must return without delivering it.
+QuitDuring(x) ==
+  /\ pc = "work"
+  /\ x = 4 => short = 1
+  /\ x = 3 => canc = 0
+  /\ x \in {0, 1} => nmsgs < MaxMsgs
+  /\ pc' = "exit"
+  /\ handled' = IF x \in {0, 1} THEN handled + 1 ELSE handled
+  /\ fin' = IF x \in {0, 1} THEN fin + 1 ELSE fin
+  /\ nmsgs' = IF x \in {0, 1} THEN nmsgs + 1 ELSE nmsgs
+  /\ canc' = IF x = 3 THEN 1 ELSE canc
+  /\ UNCHANGED <<short, res, queued, njobs>>
+  /\ Finish(A("QuitDuring", "exit", x, 0))
+
 Init ==
   /\ pc = "idle" /\ short = 0 /\ res = <<>> /\ queued = 0 /\ handled = 0 /\ fin = 0
   /\ njobs = 0 /\ nmsgs = 0 /\ canc = 0
@@ -80,6 +96,7 @@ Next ==
   \/ \E k \in {0, 1, 2} : Msg(k)
   \/ Timeout \/ Disconnect \/ Quit
   \/ \E x \in {1, 2} : Cancel(x)
+  \/ \E x \in 0..4 : QuitDuring(x)
 
 TypeOK == pc \in {"idle", "work", "exit"}
 NoViolation == viol = {}
